@@ -66,13 +66,29 @@ int _skinny_has_vec256(void)
     int detected = 0;
 #if SKINNY_VEC256_MATH
 #if SKINNY_X86_CPUID && defined(__AVX2__)
-    /* 256-bit SIMD vectors are available on x86 if we have AVX2 */
+    /* 256-bit SIMD vectors are available on x86 if the CPU has AVX2
+       and the operating system preserves the YMM registers */
     uint32_t eax = 0;
     uint32_t ebx = 0;
     uint32_t ecx = 0;
     uint32_t edx = 0;
-    __cpuid(7, eax, ebx, ecx, edx);
-    detected = (ebx & (1 << 5)) != 0;
+    if (__get_cpuid_max(0, 0) >= 7) {
+        /* Need OSXSAVE and AVX before XGETBV can be used to query the OS */
+        __cpuid(1, eax, ebx, ecx, edx);
+        if ((ecx & (1 << 27)) != 0 && (ecx & (1 << 28)) != 0) {
+            uint32_t xcr0_low;
+            uint32_t xcr0_high;
+            __asm__ __volatile__ (
+                "xgetbv" : "=a"(xcr0_low), "=d"(xcr0_high) : "c"(0)
+            );
+            (void)xcr0_high;
+            if ((xcr0_low & 0x06) == 0x06) {
+                /* AVX2 is reported in sub-leaf 0 of leaf 7 */
+                __cpuid_count(7, 0, eax, ebx, ecx, edx);
+                detected = (ebx & (1 << 5)) != 0;
+            }
+        }
+    }
 #endif
 #endif
     return detected;
